@@ -223,6 +223,18 @@ func main() {
 				if am["artifactType"] == registry.ArtifactTypeNotation {
 					addModel(sub, pushed{Kind: "legacy", MT: lib.MediaCOSE, Blob: blob, Ann: map[string]string{"legacy": fmt.Sprint(op)}, Man: d})
 				}
+				if rng.Intn(3) == 0 {
+					// a legacy notation manifest that REFERS to the subject as its blob while its subject is another artifact, and
+					// an image index that lists the subject: both are predecessors of the subject in the graph, neither is a signature of it
+					am2 := map[string]any{"mediaType": legacyArtifactManifest, "artifactType": registry.ArtifactTypeNotation, "blobs": []ocispec.Descriptor{sub}, "subject": other, "annotations": map[string]string{"legacy-weird": fmt.Sprint(op)}}
+					d2 := pushJSON(ctx, store, legacyArtifactManifest, am2)
+					addModel(other, pushed{Kind: "weird", Man: d2})
+					idx := ocispec.Index{MediaType: ocispec.MediaTypeImageIndex, Manifests: []ocispec.Descriptor{sub}, Annotations: map[string]string{"index": fmt.Sprint(iter, op)}}
+					idx.SchemaVersion = 2
+					pushJSON(ctx, store, ocispec.MediaTypeImageIndex, idx)
+					trace = append(trace, fmt.Sprintf("legacy notation manifest with subject#%d as BLOB (subject: the next artifact) and an image index listing subject#%d", si, si))
+					r.Event("non-signature-predecessors")
+				}
 			case kind == 9: // hostile: 0 or 2 layers
 				var layers []ocispec.Descriptor
 				var bds []digest.Digest
